@@ -1118,3 +1118,150 @@ Proof.
   intros T rm rf cfg e a s. unfold call, call_expect. cbv zeta.
   destruct (is_none (@None str) && (cfg_accept_any cfg || cfg_accept_nonempty cfg)); reflexivity.
 Qed.
+
+(* ============================================================================================== *)
+(* 9. strip_all: every space (hence every tab and line break) is ignored, wherever it is            *)
+(* ============================================================================================== *)
+Definition core_char (c : Z) : bool := negb (is_brk c) && no_space c.
+(* the string without tabs, CR, LF and spaces *)
+Definition core (s : str) : str := filter core_char s.
+
+Lemma reading_despace : forall p s o, reading p s o -> delete_spaces o = core s.
+Proof.
+  intros p s o R. unfold delete_spaces, core. induction R; cbn [filter]; try exact IHR.
+  - reflexivity.
+  - destruct H as [->| ->]; cbn; exact IHR.
+  - unfold core_char. rewrite H. cbn [negb andb]. destruct (no_space c); rewrite IHR; reflexivity.
+Qed.
+
+Lemma despace_breaks : forall s, delete_spaces (breaks s) = core s.
+Proof. intro s. eapply reading_despace. apply breaks_reading. Qed.
+
+Lemma despace_lower : forall T x, tables_ok T -> delete_spaces (py_lower T x) = py_lower T (delete_spaces x).
+Proof.
+  intros T x H. unfold delete_spaces, py_lower. induction x as [|c r IH]; [reflexivity|].
+  cbn [flat_map filter]. rewrite filter_app, IH.
+  destruct (Z.eqb_spec c 32) as [->|Hc].
+  - change (no_space 32) with false. cbv iota. rewrite (ok_lower_ws T H 32 (ok_sp T H)). reflexivity.
+  - assert (En : no_space c = true) by (unfold no_space; apply Z.eqb_neq in Hc; rewrite Hc; reflexivity).
+    rewrite En. cbn [flat_map]. f_equal. apply filter_all. destruct (t_space T c) eqn:Ec.
+    + rewrite (ok_lower_ws T H c Ec). constructor; [exact En | constructor].
+    + eapply Forall_impl; [|apply (ok_lower_nonws T H c Ec)]. intros d Hd. cbn beta in Hd.
+      unfold no_space. pose proof (nonws_not_space T d H Hd) as Hn. apply Z.eqb_neq in Hn. rewrite Hn. reflexivity.
+Qed.
+
+Lemma despace_strip : forall T y, tables_ok T -> delete_spaces (py_strip T y) = py_strip T (delete_spaces y).
+Proof.
+  intros T y H. destruct (strip_spec T y) as (l & r & E & Hl & Hr & Ht).
+  rewrite E at 2. unfold delete_spaces at 2. rewrite !filter_app. fold (delete_spaces l) (delete_spaces (py_strip T y)) (delete_spaces r).
+  rewrite strip_ws_ends by (apply Forall_filter; assumption).
+  symmetry. apply strip_fix. apply trimmed_delete; assumption.
+Qed.
+
+Theorem strip_all_depends_only_on_core : forall T cfg s, tables_ok T -> cfg_strip_all cfg = true ->
+  clean_input T cfg s =
+  (let x := core s in
+   let x := if cfg_case_sensitive cfg then x else py_lower T x in
+   if cfg_strip cfg then py_strip T x else x).
+Proof.
+  intros T cfg s H Hsa. rewrite clean_spec. unfold norm. cbv zeta. rewrite Hsa.
+  set (y1 := if cfg_case_sensitive cfg then breaks s else py_lower T (breaks s)).
+  set (y2 := if cfg_strip cfg then py_strip T y1 else y1).
+  assert (E : (if cfg_clean_spaces cfg then re_sub_spaces (delete_spaces y2) else delete_spaces y2) = delete_spaces y2).
+  { destruct (cfg_clean_spaces cfg); [|reflexivity]. apply squeeze_fix. apply nospace_no_double. apply delete_nospace. }
+  rewrite E. subst y2 y1.
+  destruct (cfg_strip cfg); [rewrite despace_strip by exact H|];
+    (destruct (cfg_case_sensitive cfg); [|rewrite despace_lower by exact H]); rewrite despace_breaks; reflexivity.
+Qed.
+
+Corollary strip_all_ignores_spaces_anywhere : forall T cfg a b, tables_ok T -> cfg_strip_all cfg = true ->
+  clean_input T cfg (a ++ 32 :: b) = clean_input T cfg (a ++ b).
+Proof.
+  intros T cfg a b H Hsa. rewrite !(strip_all_depends_only_on_core T cfg) by assumption.
+  assert (E : core (a ++ 32 :: b) = core (a ++ b)) by (unfold core; rewrite !filter_app; reflexivity).
+  rewrite E. reflexivity.
+Qed.
+
+(* ============================================================================================== *)
+(* 10. clean_spaces: repeating a space changes nothing                                             *)
+(* ============================================================================================== *)
+Lemma squeeze_go_double : forall U f V, squeeze_go f (U ++ 32 :: 32 :: V) = squeeze_go f (U ++ 32 :: V).
+Proof.
+  induction U as [|c U IH]; intros f V.
+  - cbn [app squeeze_go]. rewrite !Z.eqb_refl. destruct f; reflexivity.
+  - cbn [app squeeze_go]. destruct (c =? 32); [destruct f|]; rewrite IH; reflexivity.
+Qed.
+
+Lemma squeeze_go_left : forall l f c X, c <> 32 ->
+  squeeze_go f (l ++ c :: X) = squeeze_go f l ++ squeeze_go false (c :: X).
+Proof.
+  induction l as [|x l IH]; intros f c X Hc.
+  - cbn [app squeeze_go]. apply Z.eqb_neq in Hc. rewrite Hc. reflexivity.
+  - cbn [app squeeze_go]. destruct (x =? 32); [destruct f|]; rewrite IH by exact Hc; reflexivity.
+Qed.
+
+Lemma squeeze_go_right : forall u f d R, d <> 32 ->
+  squeeze_go f (u ++ d :: R) = squeeze_go f (u ++ [d]) ++ squeeze_go false R.
+Proof.
+  induction u as [|x u IH]; intros f d R Hd.
+  - cbn [app squeeze_go]. apply Z.eqb_neq in Hd. rewrite Hd. reflexivity.
+  - cbn [app squeeze_go]. destruct (x =? 32); [destruct f|]; rewrite IH by exact Hd; reflexivity.
+Qed.
+
+Lemma squeeze_strip_comm : forall T y, tables_ok T -> re_sub_spaces (py_strip T y) = py_strip T (re_sub_spaces y).
+Proof.
+  intros T y H. destruct (strip_spec T y) as (l & r & E & Hl & Hr & Ht).
+  set (m := py_strip T y) in *. destruct m as [|c t] eqn:Em.
+  - (* y is all whitespace *)
+    cbn [app] in E. assert (Hy : all_ws T y) by (rewrite E; apply Forall_app; split; assumption).
+    symmetry. unfold re_sub_spaces at 2. cbn [squeeze_go]. apply strip_all_ws. apply Forall_squeeze_go. exact Hy.
+  - destruct Ht as [Hc Hd]. cbn in Hc.
+    destruct (rev (c :: t)) as [|d u] eqn:Er.
+    { exfalso. apply (f_equal (@length Z)) in Er. rewrite rev_length in Er. simpl in Er. lia. }
+    cbn in Hd.
+    assert (Ect : c :: t = rev u ++ [d]) by (rewrite <- (rev_involutive (c :: t)), Er; reflexivity).
+    pose proof (nonws_not_space T c H Hc) as Nc. pose proof (nonws_not_space T d H Hd) as Nd.
+    assert (Es : re_sub_spaces y = squeeze_go false l ++ re_sub_spaces (c :: t) ++ squeeze_go false r).
+    { unfold re_sub_spaces. rewrite E. change ((c :: t) ++ r) with (c :: (t ++ r)).
+      rewrite squeeze_go_left by exact Nc. f_equal.
+      change (c :: t ++ r) with ((c :: t) ++ r). rewrite Ect, <- app_assoc. cbn [app].
+      apply squeeze_go_right. exact Nd. }
+    rewrite Es. rewrite strip_ws_ends by (apply Forall_squeeze_go; assumption).
+    symmetry. apply strip_fix. apply trimmed_squeeze; [exact H|]. split; [exact Hc|]. rewrite Er. exact Hd.
+Qed.
+
+Lemma breaks_space_cons : forall b, breaks (32 :: b) = 32 :: breaks b.
+Proof.
+  intro b. pose proof (breaks_app_right 0 [] 32 b (le_n 0) eq_refl) as E.
+  cbn [app] in E. rewrite breaks_single in E. exact E.
+Qed.
+
+Lemma lower_space_cons : forall T Q, tables_ok T -> py_lower T (32 :: Q) = 32 :: py_lower T Q.
+Proof.
+  intros T Q H. unfold py_lower. cbn [flat_map]. rewrite (ok_lower_ws T H 32 (ok_sp T H)). reflexivity.
+Qed.
+
+Theorem clean_spaces_ignores_repeated_space : forall T cfg a b, tables_ok T -> cfg_clean_spaces cfg = true ->
+  clean_input T cfg (a ++ 32 :: 32 :: b) = clean_input T cfg (a ++ 32 :: b).
+Proof.
+  intros T cfg a b H Hcs. destruct (cfg_strip_all cfg) eqn:Hsa.
+  - rewrite !(strip_all_depends_only_on_core T cfg) by assumption.
+    assert (E : core (a ++ 32 :: 32 :: b) = core (a ++ 32 :: b)) by (unfold core; rewrite !filter_app; reflexivity).
+    rewrite E. reflexivity.
+  - rewrite !clean_spec. unfold norm. cbv zeta. rewrite Hcs, Hsa.
+    assert (B2 : breaks (a ++ 32 :: 32 :: b) = breaks a ++ 32 :: 32 :: breaks b).
+    { rewrite (breaks_app_left (length a)) by (auto; lia). rewrite !breaks_space_cons. reflexivity. }
+    assert (B1 : breaks (a ++ 32 :: b) = breaks a ++ 32 :: breaks b).
+    { rewrite (breaks_app_left (length a)) by (auto; lia). rewrite breaks_space_cons. reflexivity. }
+    rewrite B1, B2.
+    generalize (breaks a) as P, (breaks b) as Q. intros P Q.
+    assert (Fin : forall P' Q' : str,
+               re_sub_spaces (if cfg_strip cfg then py_strip T (P' ++ 32 :: 32 :: Q') else P' ++ 32 :: 32 :: Q')
+               = re_sub_spaces (if cfg_strip cfg then py_strip T (P' ++ 32 :: Q') else P' ++ 32 :: Q')).
+    { intros P' Q'. destruct (cfg_strip cfg).
+      - rewrite !squeeze_strip_comm by exact H. unfold re_sub_spaces. rewrite squeeze_go_double. reflexivity.
+      - unfold re_sub_spaces. rewrite squeeze_go_double. reflexivity. }
+    destruct (cfg_case_sensitive cfg).
+    + apply Fin.
+    + rewrite !lower_app, !lower_space_cons by exact H. apply Fin.
+Qed.
